@@ -260,12 +260,42 @@ Definition varied (l : list event) (o : nat) : Prop := exists e, In e l /\ ev_in
 Definition ret_distinct (r1 r2 : ret) : Prop :=
   match r1, r2 with RArg1, RArg1 => False | RArg2, RArg2 => False | _, _ => True end.
 
+(* ---- the four post-conditions of the property; h0/pop = heap and population given to the call,
+        h/l = heap and call log afterwards, off = the returned list ---- *)
+(* no pre-existing object (in particular no individual of the population) was modified *)
+Definition untouched (h0 : heap) (pop : list nat) (h : heap) : Prop :=
+  (forall u, u < ni h0 -> ind_at h u = ind_at h0 u) /\
+  (forall v, v < nf h0 -> fit_at h v = fit_at h0 v) /\
+  (forall p, In p pop -> content h p = content h0 p).
+
+(* the offspring are pairwise distinct objects allocated during the call, each with its own fitness
+   object allocated during the call; no location reachable from an offspring is reachable from any
+   pre-existing individual, nor from another offspring *)
+Definition independent (h0 h : heap) (off : list nat) : Prop :=
+  NoDup off /\
+  (forall o, In o off -> ni h0 <= o < ni h /\ nf h0 <= fitref (ind_at h o) < nf h) /\
+  (forall o u x, In o off -> u < ni h0 -> In x (reach h o) -> ~ In x (reach h u)) /\
+  (forall o o' x, In o off -> In o' off -> o <> o' -> In x (reach h o) -> ~ In x (reach h o')).
+
+Definition varied_invalid (h : heap) (l : list event) (off : list nat) : Prop :=
+  forall o, In o off -> varied l o -> fit_of h o = None.
+
+(* a valid offspring was never given to / returned by an operator, and is the clone of a member of
+   the population whose genotype and fitness values it still carries *)
+Definition valid_is_parent_copy (h0 : heap) (pop : list nat) (h : heap) (l : list event)
+                                (off : list nat) : Prop :=
+  forall o f, In o off -> fit_of h o = Some f ->
+    ~ varied l o /\
+    exists p, In p pop /\ In (EClone p o) l /\
+              geno (ind_at h o) = geno (ind_at h0 p) /\ fit_of h0 p = Some f.
+
 Definition start (h : heap) (d : list draw) : st := mkst h d 0 [].
 
 End Variation.
 
 Arguments mkind {G}. Arguments mkheap {G F}. Arguments mkmate {G F}. Arguments mkmut {G F}.
-Arguments wf_heap {G F}. Arguments pop_ok {G F}. Arguments reach {G F}. Arguments ret_distinct {G F}.
+Arguments untouched {G F}. Arguments independent {G F}. Arguments varied_invalid {G F}.
+Arguments valid_is_parent_copy {G F}. Arguments wf_heap {G F}. Arguments pop_ok {G F}. Arguments reach {G F}. Arguments ret_distinct {G F}.
 Arguments geno {G}. Arguments fitref {G}.
 Arguments ind_at {G F}. Arguments fit_at {G F}. Arguments ni {G F}. Arguments nf {G F}.
 Arguments fit_of {G F}. Arguments content {G F}. Arguments alloc {G F}. Arguments clone {G F}.
